@@ -15,7 +15,7 @@ from .. import history, probes
 from ..battery import call, _Raised
 from ..observe import observe
 
-TIERS = {"quick": 800, "thorough": 15000}
+TIERS = {"quick": 800, "thorough": 60000}
 WATCHDOG_S = {"quick": 900, "thorough": 7200}
 RULE = ("one case = one input (3 of 4 a Hypergraph with 2-12 hyperedges of sizes 1-5 over int/str/gap labels, else a "
         "DirectedHypergraph with 2-10 hyperedges) x one parameter draw (n_steps in {0,1,5,50,400}, label edge|stub, detailed "
